@@ -2,5 +2,5 @@ SPECIFICATION Spec
 CONSTANTS
   Alphabet = {0, 16, 62, 255, 128}
   MaxLen = 5
-INVARIANTS HexInv RLInv TiffInv
+INVARIANTS HexInv RLInv TiffInv TiffBInv
 CHECK_DEADLOCK FALSE
